@@ -91,6 +91,21 @@ def check_c15(tier, rep=None, only_complete=False):
         genes, txs = ref.features()
         for g in genes:
             g['name'] = ref.genes[g['id']].name
+        if r.random() < 0.4:
+            # a pseudo-autosomal duplicate, as GENCODE annotates them: the same gene again on chrY under <gene id>_PAR_Y (and
+            # <transcript id>_PAR_Y).  Input rows name genes of chr1 only, so every record must name the chr1 gene - also when a
+            # FusionCatcher row gives the id without its version.
+            pg = r.choice(genes)['id']
+            dup = []
+            for line in ref.gtf_lines():
+                if f'gene_id "{pg}"' in line:
+                    line = re.sub(r'((?:gene|transcript|protein)_id "[^"]+)"', r'\1_PAR_Y"', line)
+                    dup.append('chrY' + line[line.index('\t'):])
+            body = open(paths['annotation_gtf']).read()
+            open(paths['annotation_gtf'], 'w').write(body + '\n'.join(dup) + '\n' if r.random() < 0.7 else '\n'.join(dup) + '\n' + body)
+            with open(paths['genome_fasta'], 'a') as fh:
+                sq = ref.chroms['chr1']
+                fh.write('>chrY\n' + '\n'.join(sq[k:k + 60] for k in range(0, len(sq), 60)) + '\n')
         cases = []
         seen = set()
         for gd in genes:
